@@ -374,9 +374,12 @@ inductive SRes where
 
 def nonNull (vs : List Val) : List Val := vs.filter (· != .null)
 
-def dedupVals : List Val → List Val
+/-- duplicates removed, first occurrences kept in place -/
+def dedupFirst {α : Type} [BEq α] : List α → List α
   | [] => []
-  | v :: vs => v :: (dedupVals vs).filter (· != v)
+  | v :: vs => v :: (dedupFirst vs).filter (· != v)
+
+abbrev dedupVals (vs : List Val) : List Val := dedupFirst vs
 
 def isInt : Val → Bool
   | .int _ => true
@@ -564,7 +567,7 @@ def cmpRows (keys : List (Nat × Bool)) (a b : List AVal) : Ordering :=
 /-- stable insertion (`sort_by` is stable) -/
 def insertStable (keys : List (Nat × Bool)) (x : List AVal) : List (List AVal) → List (List AVal)
   | [] => [x]
-  | y :: ys => if cmpRows keys y x == .gt then y :: insertStable keys x ys else x :: y :: ys
+  | y :: ys => if cmpRows keys y x == .lt then y :: insertStable keys x ys else x :: y :: ys
 
 def sortA (keys : List (Nat × Bool)) (rows : List (List AVal)) : List (List AVal) :=
   rows.foldr (insertStable keys) []
@@ -588,24 +591,48 @@ def outPos (items : List Item) (i : Nat) : Nat :=
     else (keyItems items).length + ((items.take i).filter (fun x => !x.isKey)).length
   | none => 0
 
+/-- `ValueVector::set_null` allocates the validity mask with the length the vector has at its
+first null and never extends it (`push_*` only grow the data): in a typed vector only the first null
+is recorded, every later null reads back as the type's default value -/
+def defaultOf (fn : AggFn) : AVal :=
+  match fn with
+  | .avg => .float 0
+  | _ => .int 0
+
+def loseNullsCol (dflt : AVal) : Bool → List AVal → List AVal
+  | _, [] => []
+  | seen, v :: vs =>
+    if v == .null then (if seen then dflt else .null) :: loseNullsCol dflt true vs
+    else v :: loseNullsCol dflt seen vs
+
+/-- the aggregate columns of the operator's output chunk (all typed except `collect`) -/
+def loseNulls (nk : Nat) (aggs : List AggExpr) (out : List (List AVal)) : List (List AVal) :=
+  let cols : List (List AVal) := aggs.zipIdx.map (fun (a, j) =>
+    let col := out.map (fun r => r.getD (nk + j) .null)
+    if a.fn == .collect then col else loseNullsCol (defaultOf a.fn) false col)
+  out.zipIdx.map (fun (r, i) => r.take nk ++ cols.map (fun c => c.getD i .null))
+
 /-- the aggregate operator over the filtered bindings, as the planner sets it up -/
-def aggRows (lang : Lang) (q : AggQ) (bs : List Binding) : List (List AVal) :=
+def aggRowsWith (lose : Bool) (lang : Lang) (q : AggQ) (bs : List Binding) : List (List AVal) :=
   let kept := bs.filter (passes q.preds)
   let rows := kept.map (opRow q)
   let nk := (keyItems q.items).length
   let aggs := physAggs lang q
   let aggs := if factorizedPath q then aggs.map (fun a => { a with distinct := false }) else aggs
   let out := if nk = 0 then [simpleAgg aggs [rows]] else hashAgg (List.range nk) aggs [rows]
-  out.map (coerceRow nk aggs)
+  let out := out.map (coerceRow nk aggs)
+  if lose then loseNulls nk aggs out else out
 
-def finishAgg (lang : Lang) (q : AggQ) (bs : List Binding) : Res :=
+def finishAggWith (lose : Bool) (lang : Lang) (q : AggQ) (bs : List Binding) : Res :=
   if hasCountStar q then .error "syntax"       -- neither parser accepts `*` as an argument
   else
-    let out := aggRows lang q bs
+    let out := aggRowsWith lose lang q bs
     if out.any (fun r => r.contains .panic) then .error "panic"
     else
       let out := if q.orderBy.isEmpty then out else sortA (q.orderBy.map (fun (i, asc) => (outPos q.items i, asc))) out
       .rows (window q.skip q.limit out)
+
+def finishAgg (lang : Lang) (q : AggQ) (bs : List Binding) : Res := finishAggWith true lang q bs
 
 /-- as coded: the scan / expand pipeline feeds the aggregate operator -/
 def Pipe.execAgg (lang : Lang) (g : Graph) (q : AggQ) : Res := finishAgg lang q (Pipe.bindings g q.core)
@@ -621,9 +648,7 @@ def specFn : SFn → AggFn
 def keyVals (q : AggQ) (b : Binding) : List Val :=
   (keyItems q.items).map (fun i => srcVal b (itemSrc i))
 
-def dedupKeys : List (List Val) → List (List Val)
-  | [] => []
-  | k :: ks => k :: (dedupKeys ks).filter (· != k)
+abbrev dedupKeys (ks : List (List Val)) : List (List Val) := dedupFirst ks
 
 /-- one output cell of the group with key `k` -/
 def specCell (q : AggQ) (grp : List Binding) (k : List Val) (i : Nat) (it : Item) : SRes :=
